@@ -2,16 +2,17 @@
 (* behaviour export for direction G of the composed model: one shortest call history per (sampled) transition of MCWorld *)
 EXTENDS MCWorld, Json
 VARIABLE hist
-LeafSeq == <<Int0, IntM, StrA, BoolT, Dbl15>>
+LeafSeq == <<Int0, IntM, StrA, BoolT, Dbl15, ArrOfInt, [t |-> "null"]>>
 ValIdx(v) == CHOOSE i \in 1..Len(LeafSeq) : LeafSeq[i] = v
 Rec(c) == [op |-> c.op, a |-> c.a, b |-> c.b, k |-> c.k, i |-> c.i, cnt |-> c.cnt, kind |-> c.kind, vi |-> ValIdx(c.val) - 1,
-           f |-> IF c.op = "parse" THEN c.f ELSE 0, path |-> c.path]
+           f |-> IF c.op = "parse" THEN c.f ELSE 0, path |-> c.path,
+           pop |-> IF c.op = "wpatch" THEN c.pop ELSE "", from |-> IF c.op = "wpatch" THEN c.from ELSE <<>>]
 GInit == Init /\ hist = <<>>
 GNext == Next /\ hist' = Append(hist, Rec(last'))
 GSpec == GInit /\ [][GNext]_<<vars, hist>>
-CONSTANT GStride
+CONSTANTS GStride, GOnly      \* GOnly = "" : every transition may be exported; else only those of that operation
 RECURSIVE SumW(_)
 SumW(S_) == IF S_ = {} THEN 0 ELSE LET x == CHOOSE y \in S_ : TRUE IN w'.n[x].rc * x + Len(w'.n[x].kids) * 5 + SumW(S_ \ {x})
 EdgeHash == Len(hist') * 7 + last'.a * 13 + last'.b * 17 + last'.k * 19 + last'.i * 23 + Len(last'.path) * 31 + ValIdx(last'.val) * 41 + SumW(R!Live(w'))
-GExport == (EdgeHash % GStride = 0) => PrintT(<<"EDGE", ToJson(hist')>>)
+GExport == (EdgeHash % GStride = 0 /\ (GOnly = "" \/ last'.op = GOnly)) => PrintT(<<"EDGE", ToJson(hist')>>)
 ====
